@@ -70,6 +70,13 @@ func solveEntry(c *Ctx, rule string, ent effectEntry) *EngineB {
 
 // ruleNoWrite: B1 for each entry.
 func ruleNoWrite(label string, entries func(c *Ctx) []effectEntry, floorEntries, floorStores int) ruleFunc {
+	return ruleNoWriteOpt(label, entries, floorEntries, floorStores, false)
+}
+
+// ruleNoWriteOpt: with ignoreAppend the possible in-place write of append() is not judged (the
+// analysis is flow-insensitive: a slice variable that is later re-pointed at caller memory would
+// make every earlier append look like a write to it); stores, map updates and copies still are.
+func ruleNoWriteOpt(label string, entries func(c *Ctx) []effectEntry, floorEntries, floorStores int, ignoreAppend bool) ruleFunc {
 	return func(c *Ctx) {
 		c.R.Rule("B1 (" + label + "): inclusion-based field-sensitive points-to over the functions reachable from each entry; every store, map update, copy destination, " +
 			"in-place append and writing library call must target a per-call allocation or the caller's result buffer, never memory reachable from the entry's parameters nor a package-level variable; " +
@@ -89,6 +96,9 @@ func ruleNoWrite(label string, entries func(c *Ctx) []effectEntry, floorEntries,
 			c.R.Note("B1-reachable:"+ent.key, fnNames...)
 			bad := 0
 			for _, w := range e.Writes(func(Loc) bool { return true }) {
+				if ignoreAppend && strings.HasPrefix(w.what, "append") {
+					continue
+				}
 				stores++
 				cons := fmt.Sprintf("%s->%s#%s", ent.key, ShortKey(FuncKey(w.fn)), instrOrdinal(w.in))
 				switch w.loc.o.kind {
